@@ -48,12 +48,13 @@ B_SRC = {
                      "contains\n  subroutine bsub(c)\n    !! calls A\n    type(child_t) :: c\n    integer :: k\n    call asub(k)\n    k = afun(k)\n    call agen(k)\n    call helper()\n  end subroutine bsub\nend module bmod\n"),
     # B's own utils: must win over A's module of the same name
     "src/utils.f90": "module utils\n  !! B's utils\n  implicit none\n  type :: vec_t\n    real :: y\n  end type vec_t\ncontains\n  subroutine helper()\n    !! B's helper\n  end subroutine helper\nend module utils\n",
-    "src/viaapi.f90": ("module viaapi\n  !! B reaches A through the facade's names\n  use aapi\n  implicit none\n  type(api_t) :: held\ncontains\n"
+    "src/viaapi.f90": ("module viaapi\n  !! B reaches A through the facade's names\n  use aapi\n  implicit none\n  type(api_t) :: held\n  type, extends(api_t) :: viachild\n    !! extends A's type under the facade's name\n    integer :: more\n  end type viachild\ncontains\n"
                        "  subroutine facade_user(k)\n    integer :: k\n    call api_run(k)\n    k = api_fun(k)\n  end subroutine facade_user\nend module viaapi\n"),
     "src/prog.f90": "program bprog\n  use bmod\n  use amod, only: avar\n  type(child_t) :: c\n  call bsub(c)\nend program bprog\n",
 }
 
 
+REQUIRED_FRAGMENTS = [("type/viachild.html", "type/base_t.html", "boundprocedure-tb"), ("type/child_t.html", "type/base_t.html", "boundprocedure-tb")]
 REQUIRED_LINKS = [("module/viaapi.html", "type/base_t.html"), ("module/viaapi.html", "module/aapi.html"), ("type/child_t.html", "type/base_t.html"),
                   ("module/bmod.html", "module/amod.html"), ("module/bmod.html", "proc/asub.html")]
 
@@ -132,8 +133,12 @@ def evaluate(case):
             ext = os.path.join(root, "A", "doc") if case["abspath"] else "../A/doc"
             if case["fault"] == "pathisfile":
                 ext += "/index.html"
+        # half of the histories start FORD from another directory (`ford B/proj.md`): a relative external path is relative to the project file
+        elsewhere = os.path.join(root, "elsewhere", "deeper")
+        os.makedirs(elsewhere, exist_ok=True)
+        other_cwd = elsewhere if (len(case["optsA"]) + len(case["fault"])) % 2 == 0 else None
         okb, logb, errb = site.run_inproc(os.path.join(root, "B"), {"project": "projB", "external": f"projA = {ext}", "proc_internals": True},
-                                          body="Project B, see [[asub]] and [[child_t]].")
+                                          body="Project B, see [[asub]] and [[child_t]].", cwd_other=other_cwd)
         if server is not None:
             server.shutdown()
         if not okb:
@@ -187,6 +192,11 @@ def evaluate(case):
                     bad.append(("missing-page", f"B's page {rel} was not written"))
                 elif not any(urllib.parse.urlsplit(u).path.endswith(tail) for _, _, u in pg.links):
                     bad.append(("missing-external-link", f"{rel} refers to an entity of A but has no link to A's {tail}"))
+        if case["fault"] == "none":
+            for rel, tail, frag in REQUIRED_FRAGMENTS:       # members of A's types, also of a type reached through the facade
+                pg = site.parse_page(bdoc, rel) if os.path.exists(os.path.join(bdoc, rel)) else None
+                if pg is not None and not any(urllib.parse.urlsplit(u).path.endswith(tail) and urllib.parse.urlsplit(u).fragment == frag for _, _, u in pg.links):
+                    bad.append(("missing-external-link", f"{rel} inherits {frag.split('-')[-1]} from A's type but has no link to A's {tail}#{frag}"))
         if case["fault"] == "none" and ext_links == 0:
             bad.append(("no-external-links", "B refers to A's entities but no link into A's documentation was generated"))
     return bad
